@@ -133,4 +133,25 @@ theorem C19_source_skeletons :
     Gen.Skel.ProxyServer_isAlwaysForwarded = Expected.Skel.ProxyServer_isAlwaysForwarded :=
   ⟨rfl, rfl, rfl, rfl, rfl, rfl, rfl⟩
 
+/-- the position cookie the proxy sets after a write reaches the client next to whatever cookies the
+    application's own answer sets — for every list of application headers — and all of those
+    reach it too (the headers are added, not assigned) -/
+theorem C19_position_cookie_survives_application_cookies (txid : String) (app : List (String × String)) :
+    txid ∈ Proxy.setCookies (Proxy.responseHeaders [("Set-Cookie", txid)] app) ∧
+    ∀ c, ("Set-Cookie", c) ∈ app → c ∈ Proxy.setCookies (Proxy.responseHeaders [("Set-Cookie", txid)] app) := by
+  constructor
+  · simp [Proxy.setCookies, Proxy.responseHeaders]
+  · intro c hc
+    simp only [Proxy.setCookies, Proxy.responseHeaders, List.mem_map, List.mem_filter, List.mem_append]
+    exact ⟨("Set-Cookie", c), ⟨Or.inr hc, by simp⟩, rfl⟩
+
+/-- the fact the model above rests on, proved about the skeleton regenerated from
+    http/proxy_server.go: inside the loop over the application's header values `proxyToTarget`
+    calls `w.Header().Add`, and the cookie is set (`http.SetCookie`) before that loop -/
+theorem C19_headers_are_added :
+    ("call", "w.Header().Add") ∈ Gen.Skel.ProxyServer_proxyToTarget ∧
+    ((Gen.Skel.ProxyServer_proxyToTarget.findIdx? (· == ("call", "http.SetCookie"))).getD 1000 <
+      (Gen.Skel.ProxyServer_proxyToTarget.findIdx? (· == ("range", "resp.Header"))).getD 0) := by
+  decide
+
 end LiteFSVerif.C19
